@@ -22,6 +22,15 @@ Oracles
   builders, orders 1-3, scope propagator / full, several accuracies) is run eagerly and lazily and compared; an
   allowed refusal (DivergedError / NotConvergedError) must be raised in both modes.
 
+* batch-equals-one-by-one: batches mix members that converge at very different series lengths (band-limited random
+  wave, single plane wave, constant wave whose Laplacian is exactly 0, wave of amplitude 1e-6), on one or two ensemble
+  axes; every member of the batched eager result must equal the eager run of that member alone (and, via lazy chunks of
+  one member, the lazy run); intensity and the analytic phase model are judged per member, relative to that member.
+* repeated-use / inputs-unchanged: one potential object (on-the-fly Potential, pre-built PotentialArray, CrystalPotential
+  over a pre-built unit) is traversed several times by the real-space algorithm - eager, eager again with max_batch=1
+  (several wave batches), then lazy - and every result must equal the run through a *fresh* copy of the potential
+  used exactly once; afterwards the stored potential array and the input wave array must be bitwise unchanged.
+
 accuracy > 18 needs sympy (not installed in /venv) and is outside the checked domain.
 """
 import math
@@ -38,13 +47,16 @@ RULE = ("stencil cases: accuracy 2-18 (even), dtype complex64/complex128, prefac
         "1-48 per axis (square, rectangular, size-1 and smaller-than-stencil axes), batch shapes (), (3,), (2,2); all "
         "H*W discrete frequencies when H*W <= 160 else 14 drawn incl. 0 and Nyquist; vacuum cases: grids 12-36, isotropic "
         "(70 %) or anisotropic sampling, 60-300 keV, accuracy 2-18, order 1-3, scope propagator/full, 1-4 slices with "
-        "dz chosen so that the band-limit series argument is 0.2-1.0, batch 1-3; potential cases: 1-3 light atoms, "
-        "Probe/PlaneWave, lazy vs eager; non-trivial = non-zero frequency plane wave / propagation that changes the wave; "
+        "dz chosen so that the band-limit series argument is 0.2-1.0, batch of 1-4 members drawn from random/plane/constant/"
+        "tiny waves on one or two ensemble axes, lazy chunks of 1 or 2 members, one-by-one runs (25 %); potential cases: "
+        "1-3 light atoms, Probe/PlaneWave/scan of 2 probes/explicit mixed Waves batch, potential on-the-fly / pre-built "
+        "array / CrystalPotential over a built unit, each object traversed eager, eager(max_batch=1), lazy; non-trivial = non-zero frequency plane wave / propagation that changes the wave; "
         "distinct = distinct case signature")
 CLAUSES = ["stencil-eigenvalue", "stencil-eigenvalue-exhaustive", "stencil-linear-reference", "coefficient-order-conditions",
            "coefficient-exact", "bad-accuracy-refused", "laplace-operator-eigenvalue", "vacuum-intensity",
-           "vacuum-phase-model", "lazy-equals-eager:values"]
-QUICK = dict(n=30, time=30)
+           "vacuum-phase-model", "lazy-equals-eager:values", "batch-equals-one-by-one", "repeated-use:values",
+           "inputs-unchanged"]
+QUICK = dict(n=30, time=35)
 THOROUGH = dict(n=1340, time=480, shards=16)
 
 ACCURACIES = [2, 4, 6, 8, 10, 12, 14, 16, 18]
@@ -138,17 +150,24 @@ def gen(rng, tier):
         d = float(rng.uniform(0.08, 0.3))
         iso = bool(rng.random() < 0.7)
         dy = d if iso else float(d * rng.uniform(0.6, 1.0))
+        n = int(rng.integers(1, 5))
+        members = [str(rng.choice(["random", "random", "plane", "constant", "tiny"])) for _ in range(n)]
+        shape = [2, 2] if (n == 4 and rng.random() < 0.6) else [n]
         return {"kind": "vacuum", "accuracy": acc, "order": order, "scope": scope, "energy": energy, "gpts": [H, W],
                 "sampling": [d, dy], "nslices": int(rng.integers(1, 5)), "x": float(rng.uniform(0.2, 1.0)),
-                "batch": int(rng.integers(1, 4)), "fraction": float(rng.uniform(0.3, 0.9)),
-                "seed": int(rng.integers(0, 2 ** 31)), "lazy_chunks": int(rng.integers(1, 3))}
+                "members": members, "batch_shape": shape, "fraction": float(rng.uniform(0.3, 0.9)),
+                "seed": int(rng.integers(0, 2 ** 31)), "lazy_chunks": int(rng.integers(1, 3)),
+                "one_by_one": bool(n >= 2 and n <= 3 and rng.random() < 0.4)}
     cell = G.rand_cell_case(rng, max_atoms=3, max_xy=6.0, min_xy=4.0, max_z=3.0, min_z=1.5,
                             elements=["C", "N", "O", "Si", "Al"])
     return {"kind": "potential", "accuracy": int(rng.choice([2, 4, 6, 8, 12])), "order": order, "scope": scope,
             "energy": float(rng.choice([100e3, 200e3, 300e3])), "cell": cell, "gpts": G.rand_gpts(rng, 24, 40),
-            "slice_thickness": float(rng.uniform(0.3, 0.6)), "builder": str(rng.choice(["probe", "plane", "probe-scan"])),
+            "slice_thickness": float(rng.uniform(0.3, 0.6)),
+            "builder": str(rng.choice(["probe", "plane", "probe-scan", "probe-scan", "waves"])),
             "detector": str(rng.choice(["none", "none", "annular", "pixelated"])),
-            "exit_planes": bool(rng.random() < 0.3), "pos": rng.random((2, 2)).round(4).tolist()}
+            "exit_planes": bool(rng.random() < 0.3), "pos": rng.random((2, 2)).round(4).tolist(),
+            "potential": str(rng.choice(["fly", "built", "built", "crystal"])),
+            "repeat": bool(rng.random() < 0.6), "seed": int(rng.integers(0, 2 ** 31))}
 
 
 def fixed_cases(tier):
@@ -160,12 +179,25 @@ def fixed_cases(tier):
     # one deterministic witness of each pipeline clause, so that a time-capped run still evaluates every clause
     out.append({"kind": "stencil", "accuracy": 6, "dtype": "complex64", "prefactor": 1.0, "shape": [31, 24], "batch": [3],
                 "seed": 5, "operator": False, "sampling": 0.1})
+    # mixed batch on two ensemble axes: a constant wave (Laplacian exactly 0) next to waves that need many terms
     out.append({"kind": "vacuum", "accuracy": 6, "order": 2, "scope": "propagator", "energy": 100e3, "gpts": [24, 30],
-                "sampling": [0.2, 0.2], "nslices": 3, "x": 0.8, "batch": 2, "fraction": 0.85, "seed": 11, "lazy_chunks": 2})
-    out.append({"kind": "potential", "accuracy": 6, "order": 1, "scope": "full", "energy": 200e3,
-                "cell": {"cell": [4.0, 5.0, 2.0], "symbols": ["C", "Si"], "positions": [[1.0, 1.0, 0.5], [2.5, 3.0, 1.5]]},
+                "sampling": [0.2, 0.2], "nslices": 3, "x": 0.9, "members": ["random", "constant", "plane", "tiny"],
+                "batch_shape": [2, 2], "fraction": 0.85, "seed": 11, "lazy_chunks": 2, "one_by_one": False})
+    out.append({"kind": "vacuum", "accuracy": 4, "order": 1, "scope": "full", "energy": 200e3, "gpts": [20, 20],
+                "sampling": [0.15, 0.15], "nslices": 2, "x": 1.0, "members": ["constant", "random"],
+                "batch_shape": [2], "fraction": 0.9, "seed": 12, "lazy_chunks": 1, "one_by_one": True})
+    # one pre-built potential object traversed four times (eager, eager in two batches, lazy)
+    cell = {"cell": [4.0, 5.0, 2.0], "symbols": ["C", "Si"], "positions": [[1.0, 1.0, 0.5], [2.5, 3.0, 1.5]]}
+    out.append({"kind": "potential", "accuracy": 6, "order": 1, "scope": "full", "energy": 200e3, "cell": cell,
                 "gpts": [28, 34], "slice_thickness": 0.5, "builder": "probe-scan", "detector": "none", "exit_planes": False,
-                "pos": [[0.2, 0.3], [0.7, 0.6]]})
+                "pos": [[0.2, 0.3], [0.7, 0.6]], "potential": "built", "repeat": True, "seed": 1})
+    if tier == "thorough":
+        out.append({"kind": "potential", "accuracy": 4, "order": 2, "scope": "propagator", "energy": 100e3, "cell": cell,
+                    "gpts": [26, 30], "slice_thickness": 0.5, "builder": "plane", "detector": "none", "exit_planes": False,
+                    "pos": [[0.2, 0.3], [0.7, 0.6]], "potential": "crystal", "repeat": True, "seed": 2})
+        out.append({"kind": "potential", "accuracy": 8, "order": 1, "scope": "propagator", "energy": 300e3, "cell": cell,
+                    "gpts": [24, 24], "slice_thickness": 0.4, "builder": "waves", "detector": "none", "exit_planes": False,
+                    "pos": [[0.2, 0.3], [0.7, 0.6]], "potential": "fly", "repeat": True, "seed": 3})
     return out
 
 
@@ -284,20 +316,36 @@ def _check_stencil(ctx, case):
                   accuracy=acc, freq=[m, n], reused=True)
 
 
-def _band_limited(case, rng):
-    H, W = case["gpts"]
-    d = case["sampling"]
+def _band_mask(gpts, d, fraction):
+    H, W = gpts
     kx = np.fft.fftfreq(H, d[0])
     ky = np.fft.fftfreq(W, d[1])
     r = np.sqrt(kx[:, None] ** 2 + ky[None] ** 2)
     cut = (2.0 / 3.0) / (2 * max(d)) - 0.01 / max(d)      # fully transmitted zone of abTEM's anti-aliasing aperture
-    mask = r <= case["fraction"] * cut
+    mask = r <= fraction * cut
     mask[0, 0] = True
-    b = case["batch"]
-    f = (rng.normal(size=(b, H, W)) + 1j * rng.normal(size=(b, H, W))) * mask
-    a = np.fft.ifft2(f)
-    a = a / np.abs(a).max()
-    return a.astype(np.complex64), mask, cut
+    return mask
+
+
+def _members(kinds, gpts, d, fraction, rng):
+    """Band-limited waves (n, H, W), each scaled to max |psi| = 1 (1e-6 for a `tiny` member)."""
+    H, W = gpts
+    mask = _band_mask(gpts, d, fraction)
+    idx = np.argwhere(mask)
+    out = []
+    for kind in kinds:
+        if kind == "constant":
+            a = np.ones((H, W), dtype=np.complex128) * np.exp(1j * rng.uniform(0, 2 * np.pi))
+        elif kind == "plane":
+            m, n = idx[int(rng.integers(0, len(idx)))]
+            a = plane_wave(H, W, int(m), int(n), np.complex128)
+        else:
+            a = np.fft.ifft2((rng.normal(size=(H, W)) + 1j * rng.normal(size=(H, W))) * mask)
+        a = a / np.abs(a).max()
+        if kind == "tiny":
+            a = a * 1e-6
+        out.append(a)
+    return np.stack(out).astype(np.complex64), mask
 
 
 def _mu(case, lam_e):
@@ -344,14 +392,20 @@ def _run_both(ctx, make, clause_detail):
     return res[False][1], res[True][1]
 
 
+def _ensemble_axes(shape):
+    from abtem.core.axes import OrdinalAxis
+    return [OrdinalAxis(label="e%d" % i, values=tuple(range(n))) for i, n in enumerate(shape)]
+
+
 def _check_vacuum(ctx, case):
     import abtem
-    from abtem.core.axes import OrdinalAxis
     from abtem.multislice import RealSpaceMultislice
     rng = np.random.default_rng(case["seed"])
-    a, mask, cut = _band_limited(case, rng)
     H, W = case["gpts"]
     d = tuple(case["sampling"])
+    flat, mask = _members(case["members"], (H, W), d, case["fraction"], rng)
+    bshape = tuple(case["batch_shape"])
+    a = flat.reshape(bshape + (H, W))
     lam_e = _wavelength(case["energy"])
     mu, mu1 = _mu(case, lam_e)
     # slice thickness from the wanted series argument at the band limit
@@ -360,12 +414,14 @@ def _check_vacuum(ctx, case):
     nz = case["nslices"]
     alg = RealSpaceMultislice(order=case["order"], expansion_scope=case["scope"], derivative_accuracy=case["accuracy"])
     pot = abtem.PotentialArray(np.zeros((nz, H, W), dtype=np.float32), slice_thickness=dz, sampling=d)
+    inputs = {}
 
     def make(lazy):
-        w = abtem.Waves(a.copy(), energy=case["energy"], sampling=d,
-                        ensemble_axes_metadata=[OrdinalAxis(values=tuple(range(a.shape[0])))])
+        w = abtem.Waves(a.copy(), energy=case["energy"], sampling=d, ensemble_axes_metadata=_ensemble_axes(bshape))
         if lazy:
-            w = w.ensure_lazy(chunks=(case["lazy_chunks"], -1, -1))
+            w = w.ensure_lazy(chunks=(case["lazy_chunks"],) * len(bshape) + (-1, -1))
+        else:
+            inputs["waves"] = w
         return w.multislice(pot, algorithm=alg)
 
     both = _run_both(ctx, make, dict(kind="vacuum"))
@@ -373,22 +429,55 @@ def _check_vacuum(ctx, case):
         return
     eager, lazy = both
     G.compare_objects(ctx, lazy, eager, "lazy-equals-eager", rtol=2e-5, atol_rel=2e-6)
+    ctx.expect(np.array_equal(np.asarray(inputs["waves"].array), a) and not np.asarray(pot.array).any(),
+               "inputs-unchanged", what="vacuum waves / potential")
     o = G.to_numpy(eager)
     if not ctx.expect(o.shape == a.shape, "vacuum-intensity", what="shape", got=list(o.shape)):
         return
-    i0 = (np.abs(a.astype(np.complex128)) ** 2).sum((-2, -1))
-    i1 = (np.abs(o.astype(np.complex128)) ** 2).sum((-2, -1))
+    of = o.reshape(flat.shape)
+    mscale = np.abs(flat).max((-2, -1))
+    i0 = (np.abs(flat.astype(np.complex128)) ** 2).sum((-2, -1))
+    i1 = (np.abs(of.astype(np.complex128)) ** 2).sum((-2, -1))
     ctx.close(i1 / i0, np.ones_like(i0), "vacuum-intensity", rtol=2e-5, accuracy=case["accuracy"], order=case["order"],
-              scope=case["scope"], nslices=nz, dz=dz)
+              scope=case["scope"], nslices=nz, dz=dz, members=case["members"])
     ctx.monitor("vacuum-propagations")
-    moved = float(np.abs(o - a).max())
+    moved = float(np.abs(of / mscale[:, None, None] - flat / mscale[:, None, None]).max())
     ctx.nontrivial(moved > 1e-3)
     if d[0] == d[1]:
-        want = np.fft.ifft2(np.fft.fft2(a.astype(np.complex128)) * np.exp(1j * nz * dz * mu))
-        ctx.close(o, want, "vacuum-phase-model", rtol=2e-5, scale=1.0, accuracy=case["accuracy"], order=case["order"],
-                  scope=case["scope"], nslices=nz, dz=dz)
+        want = np.fft.ifft2(np.fft.fft2(flat.astype(np.complex128)) * np.exp(1j * nz * dz * mu))
+        # judged per member, relative to that member's own amplitude
+        ctx.close(of / mscale[:, None, None], want / mscale[:, None, None], "vacuum-phase-model", rtol=2e-5, scale=1.0,
+                  accuracy=case["accuracy"], order=case["order"], scope=case["scope"], nslices=nz, dz=dz,
+                  members=case["members"])
     else:
         ctx.note("anisotropic-sampling: LaplaceOperator uses 1/(dx*dy) for both directions (outside the statement)")
+    if case["one_by_one"]:
+        for j in range(flat.shape[0]):
+            w1 = abtem.Waves(flat[j].copy(), energy=case["energy"], sampling=d)
+            try:
+                single = G.to_numpy(w1.multislice(pot, algorithm=alg))
+            except Exception as e:
+                if not _refusal(e):
+                    raise
+                ctx.expect(False, "batch-equals-one-by-one", member=case["members"][j], alone=type(e).__name__)
+                continue
+            ctx.close(of[j] / mscale[j], single / mscale[j], "batch-equals-one-by-one", rtol=2e-5, scale=1.0,
+                      member=case["members"][j], members=case["members"])
+        ctx.monitor("one-by-one-runs", flat.shape[0])
+
+
+def _attempt(fn):
+    try:
+        out = fn()
+        if isinstance(out, (list, tuple)):
+            out = [o.compute() if o.is_lazy else o for o in out]
+        elif out.is_lazy:
+            out = out.compute()
+        return "ok", out
+    except Exception as e:
+        if not _refusal(e):
+            raise
+        return "refused", type(e).__name__
 
 
 def _check_potential(ctx, case):
@@ -398,9 +487,35 @@ def _check_potential(ctx, case):
     gpts = tuple(case["gpts"])
     alg = RealSpaceMultislice(order=case["order"], expansion_scope=case["scope"], derivative_accuracy=case["accuracy"])
     ep = 2 if case["exit_planes"] else None
-    pot = abtem.Potential(atoms, gpts=gpts, slice_thickness=case["slice_thickness"], projection="finite",
-                          exit_planes=ep)
-    ext = pot.extent
+    kind = case["potential"]
+
+    def fly(exit_planes=ep):
+        return abtem.Potential(atoms, gpts=gpts, slice_thickness=case["slice_thickness"], projection="finite",
+                               exit_planes=exit_planes)
+
+    saved = stored = None
+    if kind == "built":
+        shared = fly().build(lazy=False)
+        stored = shared
+        saved = np.array(shared.array, copy=True)
+
+        def fresh():
+            return abtem.PotentialArray(saved.copy(), slice_thickness=tuple(shared.slice_thickness),
+                                        sampling=shared.sampling, exit_planes=tuple(shared.exit_planes))
+    elif kind == "crystal":
+        unit = fly(exit_planes=None).build(lazy=False)
+        stored = unit
+        saved = np.array(unit.array, copy=True)
+        shared = abtem.CrystalPotential(unit, repetitions=(1, 1, 2), exit_planes=ep)
+
+        def fresh():
+            # every slice object is used exactly once: the stack is tiled into a new array
+            return abtem.PotentialArray(np.tile(saved, (2, 1, 1)), slice_thickness=tuple(unit.slice_thickness) * 2,
+                                        sampling=unit.sampling, exit_planes=tuple(shared.exit_planes))
+    else:
+        shared = fly()
+        fresh = fly
+    ext = shared.extent
 
     def detector():
         if case["detector"] == "annular":
@@ -409,21 +524,54 @@ def _check_potential(ctx, case):
             return abtem.PixelatedDetector(max_angle="valid")
         return None
 
-    def make(lazy):
+    wave_in = {}
+    if case["builder"] == "waves":
+        d = (ext[0] / gpts[0], ext[1] / gpts[1])
+        batch, _ = _members(["random", "constant", "plane"], gpts, d, 0.5, np.random.default_rng(case["seed"]))
+
+    def run(pot, lazy, max_batch="auto"):
+        if case["builder"] == "waves":
+            # explicit mixed batch: the constant member needs far fewer series terms than the others in vacuum regions
+            w = abtem.Waves(batch.copy(), energy=case["energy"], extent=ext, ensemble_axes_metadata=_ensemble_axes((3,)))
+            if lazy:
+                w = w.ensure_lazy(chunks=(1, -1, -1))
+            else:
+                wave_in["w"] = w
+            return w.multislice(pot, detectors=detector(), algorithm=alg)
         if case["builder"] == "plane":
             b = abtem.PlaneWave(energy=case["energy"], gpts=gpts, extent=ext)
-            return b.multislice(pot, detectors=None, lazy=lazy, algorithm=alg)
+            return b.multislice(pot, detectors=None, lazy=lazy, max_batch=max_batch, algorithm=alg)
         probe = abtem.Probe(energy=case["energy"], semiangle_cutoff=15.0, gpts=gpts, extent=ext, defocus=20.0)
         pts = np.asarray(case["pos"]) * np.asarray(ext)
         if case["builder"] == "probe":
             pts = pts[:1]
-        return probe.multislice(pot, scan=abtem.CustomScan(pts), detectors=detector(), lazy=lazy, algorithm=alg)
+        return probe.multislice(pot, scan=abtem.CustomScan(pts), detectors=detector(), lazy=lazy, max_batch=max_batch,
+                                algorithm=alg)
 
-    both = _run_both(ctx, make, dict(kind="potential", builder=case["builder"]))
-    if both is None:
+    # order matters: the reference uses a fresh potential once; then the shared object is traversed again and again
+    runs = [("reference", _attempt(lambda: run(fresh(), False))), ("eager", _attempt(lambda: run(shared, False)))]
+    if case["repeat"]:
+        runs.append(("eager-batches", _attempt(lambda: run(shared, False, max_batch=1))))
+    runs.append(("lazy", _attempt(lambda: run(shared, True))))
+    status = {r[1][0] for r in runs}
+    if len(status) > 1:
+        ctx.expect(False, "repeated-use:values", statuses={n: r[0] for n, r in runs}, potential=kind)
         return
-    eager, lazy = both
-    G.compare_objects(ctx, lazy, eager, "lazy-equals-eager", rtol=5e-5, atol_rel=5e-6)
-    ctx.monitor("potential-multislice-pairs")
+    if status == {"refused"}:
+        ctx.note("series-refused-in-all-runs")
+        return
+    res = {n: r[1] for n, r in runs}
+    G.compare_objects(ctx, res["lazy"], res["eager"], "lazy-equals-eager", rtol=5e-5, atol_rel=5e-6)
+    for name in res:
+        if name != "reference":
+            G.compare_objects(ctx, res[name], res["reference"], "repeated-use", rtol=5e-5, atol_rel=5e-6, run=name,
+                              potential=kind, builder=case["builder"])
+    if stored is not None:
+        ctx.expect(np.array_equal(np.asarray(stored.array), saved), "inputs-unchanged", what="potential array",
+                   potential=kind, maxdiff=float(np.abs(np.asarray(stored.array) - saved).max()))
+    if "w" in wave_in:
+        ctx.expect(np.array_equal(np.asarray(wave_in["w"].array), batch), "inputs-unchanged", what="input waves")
+    ctx.monitor("potential-multislice-runs", len(runs))
+    eager = res["eager"]
     arr = G.to_numpy(eager[0] if isinstance(eager, list) else eager)
     ctx.nontrivial(bool(np.isfinite(arr).all()) and float(np.abs(arr).max()) > 0)
